@@ -91,9 +91,13 @@ def _handle_running(
     """Handle RUNNING status - task needs to be re-executed."""
     delay = get_backoff_fn(stage, task_model, message, 1)
 
-    # Atomic: store stage + push message together
+    # Atomic: store stage + mark this delivery processed + push message
+    # together. The mark must join this transaction: a redelivery after commit
+    # but before the processor's own mark would otherwise start a second
+    # polling chain that re-executes the task after its result was recorded.
     txn_helper.execute_atomic(
         stage=stage,
+        source_message=message,
         messages_to_push=[(message, delay.total_seconds())],
         handler_name="RunTask",
     )
